@@ -460,6 +460,28 @@ pub fn run(rng: &mut R, out: &mut Out) {
             let (g, l, t) = ref_params(right);
             out.s("valid_address_has_target_residue", ref_polymod(g, l, &lower, &syms) == t, || s.clone());
         }
+        // the verdict on a string does not depend on what was parsed before it: after every kind of REFUSED input
+        // (too short for a checksum, bad checksum, bad character, mixed case, empty data, wrong variant) the valid
+        // string still parses to the same address, and a corrupted one is still refused
+        {
+            let hrp_s = &s[..sep];
+            let one_off = substitute(&s, &[(s.len() - 3, if s.as_bytes()[s.len() - 3] == b'q' { b'p' } else { b'q' })]);
+            let junk: Vec<String> = vec![
+                format!("{}1", hrp_s), format!("{}1q", hrp_s), format!("{}1qqqqq", hrp_s), format!("{}1t2m0zfxptsf", hrp_s),
+                format!("{}1{}", hrp_s, &s[sep + 1..sep + 8]), format!("{}1{}", hrp_s, &s[sep + 1..s.len() - 1]),
+                one_off.clone(), format!("{}b", s), s[..s.len() - 1].to_string(), format!("{}1{}", hrp_s, s[sep + 1..].to_uppercase()),
+                String::new(), "1".into(), format!("{}1{}", hrp_s, "q".repeat(200)),
+            ];
+            for j in &junk {
+                let before = Address::from_str(j).is_ok() || Address::parse_with_params(j, a.params).is_ok();
+                out.count(if before { "history.junk_accepted" } else { "history.junk_refused" });
+                let ok = Address::from_str(&s).ok().as_ref() == Some(a) && Address::parse_with_params(&s, a.params).ok().as_ref() == Some(a);
+                out.s("valid_address_parses_after_refused_input", ok, || format!("{} valid={} parsed right after refused input {:?}", label, s, j));
+                let _ = Address::from_str(j);
+                let acc = accepted_fast(&one_off, a.params);
+                out.s("single_substitution_rejected", acc.is_none(), || format!("{} orig={} corrupted={} (parsed right after {:?}) accepted: {}", label, s, one_off, j, acc.clone().unwrap_or_default()));
+            }
+        }
         single_subs(out, a, label, false);
         if thorough {
             single_subs(out, a, label, true);
